@@ -15,7 +15,7 @@ import time
 
 VERIF = os.path.dirname(os.path.dirname(os.path.abspath(__file__)))
 REPO = os.environ.get("VERIF_REPO", "/repo")
-CACHE = os.path.join(VERIF, ".cache")
+CACHE = os.environ.get("VERIF_CACHE") or os.path.join(VERIF, ".cache")     # VERIF_CACHE: a second lane for sweeps
 DRIVER = os.path.join(VERIF, "engine", "mirfacts", "target", "release", "mirfacts")
 
 # library packages anchored by the properties (quick tier); thorough = whole workspace, all targets
